@@ -212,7 +212,7 @@ def _job(u, case, tier, canary, wd, res):
         defs.append("-DCANARY")
     key = None
     if not os.environ.get("VERIF_NO_CACHE"):
-        key = cache_key(u, defs, {k: u.get(k) for k in ("function", "replace", "unwind", "unwind_" + tier, "unwindset", "unwindset_" + tier,
+        key = cache_key(u, defs, {k: (case.get("unwind") if k == "case_unwind" else u.get(k)) for k in ("case_unwind", "function", "replace", "unwind", "unwind_" + tier, "unwindset", "unwindset_" + tier,
                                                          "object_bits", "solver", "extra_cbmc", "malloc_may_fail", "leak_check",
                                                          "loop_contracts", "remove_function_pointers")})
         cf_ = os.path.join(CACHE, (key or "x") + ".json")
@@ -316,7 +316,7 @@ def _after_instrument(u, case, tier, canary, wd, res, cmd, fn):
         cb += ["--malloc-may-fail", "--malloc-fail-null"]
     if u.get("leak_check", False):
         cb += ["--memory-leak-check"]
-    uw = u.get("unwind_" + tier, u.get("unwind"))
+    uw = case.get("unwind", u.get("unwind_" + tier, u.get("unwind")))
     if uw:
         cb += ["--unwind", str(uw), "--unwinding-assertions"]
     uws = u.get("unwindset_" + tier, u.get("unwindset"))
